@@ -376,16 +376,21 @@ def sql_value(ty, v, rng=None):
     raise AssertionError(ty)
 
 
-def insert_statements(schema, pop, rng=None, named=False, kinds=None):
-    '''-> list of (kind, index, statement text)'''
+def insert_statements(schema, pop, rng=None, named=False, kinds=None, omit_unset=False):
+    '''
+    -> list of (kind, index, statement text). With *omit_unset* an unset value
+    (None) is expressed the only way the dialect can: a named insert that
+    leaves the column out; otherwise it is written as the null value of its type.
+    '''
     out = []
     for kind, attrs in schema.classes:
         if kinds is not None and kind not in kinds:
             continue
         for n, row in enumerate(pop.rows[kind]):
             use_named = named if rng is None else (named and rng.random() < 0.7)
-            if use_named and attrs:
-                cols = list(attrs)
+            has_unset = omit_unset and any(row[a] is None for a, _ in attrs)
+            if (use_named or has_unset) and attrs:
+                cols = [(a, ty) for a, ty in attrs if not (omit_unset and row[a] is None)]
                 if rng is not None:
                     rng.shuffle(cols)
                 text = 'INSERT INTO %s (%s) VALUES (%s);' % (
